@@ -725,6 +725,44 @@ func uuids(c *vf.Ctx, T lattice) {
 					return u.Time
 				}},
 		}
+		// ... and the other way round: a value that carries a time (set) DECODES another identifier to the time a fresh
+		// value decodes it to
+		for _, first := range ps {
+			for _, second := range ps {
+				for ver := 1; ver <= 2; ver++ {
+					var got, want uint64
+					var err error
+					pn, msg, where := vf.Try(func() {
+						if ver == 1 {
+							src := uuid_v1.UUIDv1{Time: second}
+							raw, _ := src.Marshal()
+							f := uuid_v1.UUIDv1{}
+							f.FromBytes(append([]byte{}, raw...))
+							want = f.Time
+							u := uuid_v1.UUIDv1{}
+							u.SetTime((&uuid_v1.UUIDv1{Time: first}).GetTime())
+							err = u.FromBytes(append([]byte{}, raw...))
+							got = u.Time
+						} else {
+							src := uuid_v2.UUIDv2{Time: second}
+							raw, _ := src.Marshal()
+							f := uuid_v2.UUIDv2{}
+							f.FromBytes(append([]byte{}, raw...))
+							want = f.Time
+							u := uuid_v2.UUIDv2{}
+							u.SetTime((&uuid_v2.UUIDv2{Time: first}).GetTime())
+							err = u.FromBytes(append([]byte{}, raw...))
+							got = u.Time
+						}
+					})
+					c.Evals(1)
+					c.Case([]byte("uuid.decode-into-used"), []byte(fmt.Sprint(ver, first, second)))
+					c.Check(fmt.Sprintf("C15/uuid_v%d/history/a-value-that-carried-a-time-decodes-like-a-fresh-value", ver), !pn && err == nil && got == want, func() string {
+						return fmt.Sprintf("uuid_v%d carrying Time=%d (set), then FromBytes(identifier with Time=%d): Time=%d; a fresh value decodes Time=%d (err=%v panic=%v %s %s)", ver, first, second, got, want, err, pn, msg, where)
+					})
+				}
+			}
+		}
 		for _, v := range tvs {
 			for _, first := range ps {
 				for _, second := range ps {
